@@ -273,3 +273,50 @@ Section P.
       rewrite E2. reflexivity.
   Qed.
 End P.
+
+(* ---- renaming with several input positions ---- *)
+Lemma find_renamed i j fs x f :
+  NoDup (map fid fs) -> ~ In j (map fid fs) -> find (fun f0 => fid f0 =? x) fs = Some f ->
+  exists f', find (fun f0 => fid f0 =? ren i j x)
+               (map (fun f0 => if fid f0 =? i then mkField j (ffrag f0) (fty f0) (fspf f0) (fvals f0) else f0) fs) = Some f' /\
+             ffrag f' = ffrag f /\ fty f' = fty f /\ fspf f' = fspf f /\ fvals f' = fvals f.
+Proof.
+  intros ND Hj Hf. unfold ren. destruct (Nat.eqb_spec x i) as [Q|Q].
+  - subst x. exists (mkField j (ffrag f) (fty f) (fspf f) (fvals f)). split; [now apply rename_find|]. auto.
+  - exists f. split; [|auto].
+    revert ND Hj Hf. induction fs as [|f0 r IH]; intros ND Hj Hf; [discriminate|].
+    cbn [map find] in *. inversion ND as [|? ? Hn ND']; subst.
+    assert (Hjr : ~ In j (map fid r)) by (intros X; apply Hj; right; exact X).
+    destruct (Nat.eqb_spec (fid f0) i) as [Q2|Q2].
+    + cbn [fid]. destruct (Nat.eqb_spec (fid f0) x) as [Q3|Q3]; [lia|].
+      destruct (Nat.eqb_spec j x) as [Q4|Q4].
+      * exfalso. apply find_some in Hf as [Hf1 Hf2]. apply Nat.eqb_eq in Hf2. apply Hjr.
+        apply in_map_iff. exists f. rewrite Q4. auto.
+      * apply IH; auto.
+    + destruct (fid f0 =? x) eqn:Q3; [exact Hf|]. apply IH; auto.
+Qed.
+
+Theorem rename_keeps_every_input i j d n q f :
+  NoDup (map fid (m_fields d)) -> ~ In j (map fid (m_fields d)) -> ~ In j (map fst (m_derived d)) ->
+  input_field d n q = Some f ->
+  exists f', input_field (rename_fieldm i j d) (ren i j n) q = Some f' /\
+             ffrag f' = ffrag f /\ fty f' = fty f /\ fspf f' = fspf f /\ fvals f' = fvals f.
+Proof.
+  intros ND Hj Hjd H. unfold input_field in *.
+  destruct (find (fun p => fst p =? n) (m_derived d)) as [p|] eqn:Fp; [|discriminate].
+  destruct (nth_error (snd p) q) as [x|] eqn:Nx; [|discriminate].
+  assert (E : find (fun p0 => fst p0 =? ren i j n) (m_derived (rename_fieldm i j d)) = Some (ren i j (fst p), map (ren i j) (snd p))).
+  { unfold rename_fieldm. cbn [m_derived]. revert Fp Hjd. induction (m_derived d) as [|p0 r IH]; intros Fp Hjd; [discriminate|].
+    cbn [map find fst] in *.
+    assert (Hjr : ~ In j (map fst r)) by (intros X; apply Hjd; right; exact X).
+    assert (Hj0 : fst p0 <> j) by (intros X; apply Hjd; left; exact X).
+    destruct (Nat.eqb_spec (fst p0) n) as [Q|Q].
+    - inversion Fp; subst p0. rewrite Q. now rewrite Nat.eqb_refl.
+    - assert (NE : ren i j (fst p0) <> ren i j n).
+      { unfold ren. destruct (Nat.eqb_spec (fst p0) i), (Nat.eqb_spec n i); try lia.
+        intros X. apply find_some in Fp as [Fp1 Fp2]. apply Nat.eqb_eq in Fp2. apply Hjr.
+        apply in_map_iff. exists p. split; [lia | exact Fp1]. }
+      rewrite (proj2 (Nat.eqb_neq _ _) NE). apply IH; auto. }
+  rewrite E. cbn [snd]. rewrite nth_error_map, Nx. cbn [option_map].
+  unfold find_fieldm, rename_fieldm. cbn [m_fields]. now apply find_renamed.
+Qed.
